@@ -353,12 +353,16 @@ def normalize_url(
         domain_filter = None
 
         if splitted.hostname:
+            # NOTE: the filters are those of the host the url is normalized to
+            # ("amp-youtube.com" is "youtube.com")
+            filtered_hostname = normalize_hostname(splitted.hostname, normalize_amp)
+
             domain_filter = next(
                 (
                     f
                     for d, f in PER_DOMAIN_QUERY_FILTERS
                     # NOTE: the domain itself or a subdomain, "notfacebook.com" is another site
-                    if ("." + splitted.hostname).endswith("." + d)
+                    if ("." + filtered_hostname).endswith("." + d)
                 ),
                 None,
             )
